@@ -582,7 +582,9 @@ def oracle_C34(case, out):
     for s in out["steps"]:
         if s["kind"] == "subtrace" and s["res"][0] == "err":
             pre = tuple(tuple(c) for c in s["addr"])
-            if any(k[:len(pre)] == pre for k in look_dict(o)):
+            # (not through a switch: the pattern may belong to a branch that did not run, and a tuple address of the
+            #  branch that ran can share a prefix with it; there the model alone judges)
+            if not any(el[0] == "switch" for el in s.get("pattern", [])) and any(k[:len(pre)] == pre for k in look_dict(o)):
                 bad.append(("get_subtrace raised at an address under which the trace holds choices",
                             {"addr": s["addr"], "error": s["res"][1:]}))
             continue
